@@ -37,8 +37,9 @@ structure Setup (σ ω : Type) where
   /-- EXTERNAL ASSUMPTION 1 (C14's hypothesis): the initial-state processing of this script returns — the
   redistribution loop of `GenerateStochasticDistribution` terminates.  `false`: `setup` never returns. -/
   initReturns : Bool := true
-  /-- EXTERNAL ASSUMPTION 2 (size assumption): every `std::poisson_distribution<int>` call of this run returns —
-  amounts and Poisson means stay below 2³¹.  `false`: a drive call never returns. -/
+  /-- EXTERNAL ASSUMPTION 2 (size assumption): every Poisson draw of this run returns.  On the pinned tree
+  (`std::poisson_distribution<int>`) this needed Poisson means below 2³¹ — a mean beyond that never returned (observed on the real
+  code; repaired by fix30, which draws with `<long long>`: the bound is now 2⁶³).  `false`: a drive call never returns. -/
   stepReturns : Bool := true
 
 /-- the C++ algorithm object -/
